@@ -102,7 +102,15 @@ fn run(c0: &Case) -> Outcome {
                 };
                 let dir = (t1 - t0).signum();
                 let mut last_sp: Option<f64> = None;
-                for (j, v) in s.out[0].iter().enumerate() {
+                // every channel carries the same signal: the instants must not depend on the channel
+                let lastc = s.out.len() - 1;
+                for c in 0..lastc {
+                    if let Some(j) = (0..s.out[c].len().max(s.out[lastc].len())).find(|j| s.out[c].get(*j).map(|v| v.to_bits()) != s.out[lastc].get(*j).map(|v| v.to_bits())) {
+                        o.fail(format!("channels-disagree:{}", kind.name()), format!("op {} frame {}: channel {} is evaluated at {:?}, channel {} at {:?} (same input on all channels)", s.op, j, c, s.out[c].get(j), lastc, s.out[lastc].get(j)));
+                        return o;
+                    }
+                }
+                for (j, v) in s.out[lastc].iter().enumerate() {
                     let inst = *v;
                     let in_preroll = if ppf > 0 {
                         let st = log.get(frame_no * ppf..(frame_no + 1) * ppf);
@@ -184,7 +192,7 @@ impl Property for C06 {
         "C06"
     }
     fn rule(&self) -> String {
-        "cases = asynchronous resampler (f64; polynomial degrees Septic..Linear, sinc interpolation Cubic/Quadratic/Linear with the linear probing interpolator), index input signal, history of processing calls, in-range ratio changes (stepped / ramped, several between two calls, absolute / relative) and chunk-size changes; every spacing between consecutive evaluation instants is checked against the replica of the documented setter semantics (strictly increasing, within [1/old,1/new], exactly 1/new when not ramping, monotone while ramping), every sinc window must hold consecutive supplied frames. non-trivial = >= 1 accepted ratio change followed by >= 2 processing calls. distinct = distinct case JSON digest.".into()
+        "cases = asynchronous resampler (f64; polynomial degrees Septic..Linear, sinc interpolation Cubic/Quadratic/Linear with the linear probing interpolator), index input signal (polynomial types: 1..3 channels carrying the same signal, which must come out bit-identical), history of processing calls, in-range ratio changes (stepped / ramped, several between two calls, absolute / relative) and chunk-size changes; every spacing between consecutive evaluation instants is checked against the replica of the documented setter semantics (strictly increasing, within [1/old,1/new], exactly 1/new when not ramping, monotone while ramping), every sinc window must hold consecutive supplied frames. non-trivial = >= 1 accepted ratio change followed by >= 2 processing calls. distinct = distinct case JSON digest.".into()
     }
     fn assumptions(&self) -> Vec<String> {
         vec![
@@ -200,10 +208,13 @@ impl Property for C06 {
             4 => (prop_oneof![1 => Just(-1.0f64), 1 => Just(1.0f64), 4 => -1.0f64..=1.0], any::<bool>(), any::<bool>()).prop_map(|(pos, relative, ramp)| Op::SetRatio { pos, relative, ramp }),
             1 => any::<u16>().prop_map(|frac| Op::SetChunk { frac }),
         ];
-        (0usize..4, ratio_strategy(), max_rel_strategy(16.0), chunk_strategy(if th { 2048 } else { 512 }), 0u8..4, 0u8..3, prop_oneof![Just(8usize), Just(16usize), 8usize..=128], prop_oneof![1 => Just(1usize), 1 => Just(2usize), 3 => 1usize..=64], proptest::collection::vec(op, 3..=max_ops))
-            .prop_map(move |(k, ratio, max_rel, chunk, degree, interp, sinc_len, os, ops)| {
+        (0usize..4, ratio_strategy(), max_rel_strategy(16.0), chunk_strategy(if th { 2048 } else { 512 }), 0u8..4, 0u8..3, prop_oneof![Just(8usize), Just(16usize), 8usize..=128], prop_oneof![1 => Just(1usize), 1 => Just(2usize), 3 => 1usize..=64], proptest::collection::vec(op, 3..=max_ops), prop_oneof![2 => Just(1usize), 1 => Just(2usize), 1 => Just(3usize)])
+            .prop_map(move |(k, ratio, max_rel, chunk, degree, interp, sinc_len, os, ops, nch)| {
                 let kind = [Kind::FastIn, Kind::FastOut, Kind::SincIn, Kind::SincOut][k];
-                let mut cfg = Config { kind, f32: false, ratio, max_rel, chunk, channels: 1, degree, interp, sinc_len, os, kernel: if kind.is_sinc() { Kernel::LinearProbe } else { Kernel::Dispatch }, ..Config::default() };
+                // polynomial types: up to three channels carrying the same index signal, measured on the last one
+                // (the probe of the sinc types logs per call and is used with one channel)
+                let channels = if kind.is_sinc() { 1 } else { nch };
+                let mut cfg = Config { kind, f32: false, ratio, max_rel, chunk, channels, degree, interp, sinc_len, os, kernel: if kind.is_sinc() { Kernel::LinearProbe } else { Kernel::Dispatch }, ..Config::default() };
                 // bound the work (frames per call at the largest reachable ratio)
                 let calls = ops.iter().filter(|o| o.is_call()).count().max(1) as f64;
                 let per = if kind.is_sinc() { 40.0 } else { 16.0 };
